@@ -50,8 +50,13 @@ class EvalInterp(ResultInterp):
             for k, t in enumerate(tuples):
                 b = dict(zip(names, t)) if isinstance(t, tuple) else {}
                 label = None
+                views = {}
                 for pn, v in b.items():
                     lp = pn.lower()
+                    # the pair's own array, or a region of it (the same region of both arrays: checked below)
+                    if isinstance(v, Tagged) and v.name == "view" and isinstance(v.args[0], Sym):
+                        views[v.args[0].name] = v.args[1]
+                        v = v.args[0]
                     if lp.startswith("ref") and "arr" in lp and v != Sym("REF_ARR"):
                         r.problems.append((node, f"starmap binds {v!r} to parameter {pn} of {fn.qual}"))
                     if lp.startswith("pred") and "arr" in lp and v != Sym("PRED_ARR"):
@@ -60,6 +65,8 @@ class EvalInterp(ResultInterp):
                         label = v
                     if "metric" in lp and v is not r.eval_metrics and v != r.eval_metrics:
                         r.problems.append((node, f"starmap passes {v!r} as metrics to {fn.qual}"))
+                if views and not (set(views) == {"REF_ARR", "PRED_ARR"} and (views["REF_ARR"] is views["PRED_ARR"] or (not isinstance(views["REF_ARR"], Unknown) and views["REF_ARR"] == views["PRED_ARR"]))):
+                    r.problems.append((node, f"starmap hands {fn.qual} different regions of the two arrays: {views!r}"))
                 if not (isinstance(label, Sym) and label.name.startswith("L")):
                     r.problems.append((node, f"starmap tuple {t!r} carries no matched label"))
                     continue
@@ -75,7 +82,33 @@ class EvalInterp(ResultInterp):
     def get_attr(self, base, attr, node):
         if isinstance(base, Sym) and base.name == "pool" and attr == "starmap":
             return Sym("pool.starmap")
+        if isinstance(base, Sym) and base.name in ("REF_ARR", "PRED_ARR") and attr in ("shape", "size", "ndim"):
+            return Sym(attr.upper())  # prediction and reference of a pair have the same shape
         return super().get_attr(base, attr, node)
+
+    def subscript_hook(self, base, idx, node):
+        if isinstance(base, Sym) and base.name in ("REF_ARR", "PRED_ARR"):
+            return Tagged("view", [base, idx])  # a region of the array
+        return super().subscript_hook(base, idx, node)
+
+    # the matched labels are positive integers
+    def call_builtin(self, name, args, kwargs, node):
+        if name == "int" and len(args) == 1 and isinstance(args[0], Sym) and args[0].name.startswith("L") and args[0].name[1:].isdigit():
+            return args[0]
+        if name in ("max", "min") and args:
+            items = list(args[0]) if len(args) == 1 and isinstance(args[0], (list, tuple)) else list(args)
+            if items and all(isinstance(x, Sym) and x.name.startswith("L") and x.name[1:].isdigit() for x in items):
+                return Sym("L" + name)
+        return super().call_builtin(name, args, kwargs, node)
+
+    def compare_hook(self, op, l, r, node):
+        if isinstance(l, Sym) and l.name.startswith("L") and (l.name[1:].isdigit() or l.name in ("Lmax", "Lmin")) and isinstance(r, int) and not isinstance(r, bool) and r <= 1:
+            k = type(op)
+            if r == 1:
+                return {ast.Lt: False, ast.GtE: True}.get(k, super().compare_hook(op, l, r, node))
+            if r <= 0:
+                return {ast.Lt: False, ast.LtE: False, ast.Eq: False, ast.NotEq: True, ast.Gt: True, ast.GtE: True}.get(k, super().compare_hook(op, l, r, node))
+        return super().compare_hook(op, l, r, node)
 
     def call_func(self, f, args, kwargs, node, self_obj=None):
         # a parallel map helper proved order preserving (R15.5): read as starmap over (shared..., item...)
@@ -139,36 +172,40 @@ def check_evaluate(ctx: Ctx):
                 construct = f"{f.qual}:decision={dname}({'decreasing' if dm is dec else 'increasing' if dm is inc else '-'}),threshold={thr_repr!r}" + (f",{flag}=True" if flag else "")
                 if flag and (len(outs) != 1 or outs[0].decisions):
                     continue
-                if len(outs) != 1 or outs[0].decisions:
-                    ctx.undecided("R02.1", f, f.node, construct, "instance evaluation splits on an unmodelled condition", {"decisions": [norm(d[0]) for o in outs for d in o.decisions if isinstance(d[0], ast.AST)][:4]})
+                if len(outs) > 400:
+                    ctx.undecided("R02.1", f, f.node, construct, f"instance evaluation splits on unmodelled conditions into {len(outs)} paths", {"decisions": [norm(d[0]) for o in outs for d in o.decisions if isinstance(d[0], ast.AST)][:4]})
                     continue
-                out = outs[0]
-                it = its[-1]
-                for node, msg in it.root.problems:
-                    ctx.violated("R02.1", f, node, construct + ":binding", msg)
-                if out.kind != "return" or not isinstance(out.value, Obj):
-                    ctx.violated("R02.1", f, out.node, construct, f"evaluation does not produce an EvaluateInstancePair: {out.kind} {out.exc or ''}")
-                    continue
-                res = out.value
-                if dm is None:
-                    passing = [0, 1, 2, 3]
-                else:
-                    d = metric_direction(prog, dm)
-                    passing = [i for i, s in enumerate(SCORES) if (d, "<" if s < thr else "=" if s == thr else ">") in BEATS_REF]
-                got_tp = res.attrs.get("tp")
-                lm = res.attrs.get("list_metrics")
-                wit = {"scores": [str(s) for s in SCORES], "passing": passing, "tp": repr(got_tp)}
-                ctx.decide("R02.1", f, out.node, construct + ":tp", f"tp == number of instances passing the decision ({len(passing)})", got_tp == len(passing), wit)
-                ok_lists = isinstance(lm, dict) and all(m in lm for m in evalm)
-                if ok_lists:
-                    for m in evalm:
-                        want = [SCORES[i] if (m is dm or (dm is None and m is evalm[0])) else Sym(f"{m.attrs['_name_']}[L{i}]") for i in passing]
-                        if lm[m] != want:
-                            ok_lists = False
-                            wit = dict(wit, metric=m.attrs["_name_"], got=repr(lm[m]), want=repr(want))
-                            break
-                ctx.decide("R02.1", f, out.node, construct + ":lists", "every per-instance list holds exactly the values of the passing instances (tp entries)", ok_lists, wit)
-                ctx.decide("R02.1", f, out.node, construct + ":counts", "instance counts and arrays are passed on uncrossed", res.attrs.get("num_pred_instances") == Sym("N_PRED") and res.attrs.get("num_ref_instances") == Sym("N_REF") and res.attrs.get("reference_arr") == Sym("REF_ARR") and res.attrs.get("prediction_arr") == Sym("PRED_ARR"), {k: repr(res.attrs.get(k)) for k in ("num_pred_instances", "num_ref_instances", "reference_arr", "prediction_arr")}, nontrivial=False)
+                # a split is a split of the inputs into classes (how the instances are prepared for the workers):
+                # what is counted must be right in every class
+                base_construct = construct
+                for out, it in zip(outs, its[-len(outs):]):
+                  dtxt = "; ".join(f"{norm(nd) if isinstance(nd, ast.AST) else '?'}={d}" for nd, v, d in out.decisions)
+                  construct = base_construct + (f"[{dtxt[:160]}]" if dtxt else "")
+                  for node, msg in it.root.problems:
+                      ctx.violated("R02.1", f, node, construct + ":binding", msg)
+                  if out.kind != "return" or not isinstance(out.value, Obj):
+                      ctx.violated("R02.1", f, out.node, construct, f"evaluation does not produce an EvaluateInstancePair: {out.kind} {out.exc or ''}")
+                      continue
+                  res = out.value
+                  if dm is None:
+                      passing = [0, 1, 2, 3]
+                  else:
+                      d = metric_direction(prog, dm)
+                      passing = [i for i, s in enumerate(SCORES) if (d, "<" if s < thr else "=" if s == thr else ">") in BEATS_REF]
+                  got_tp = res.attrs.get("tp")
+                  lm = res.attrs.get("list_metrics")
+                  wit = {"scores": [str(s) for s in SCORES], "passing": passing, "tp": repr(got_tp)}
+                  ctx.decide("R02.1", f, out.node, construct + ":tp", f"tp == number of instances passing the decision ({len(passing)})", got_tp == len(passing), wit)
+                  ok_lists = isinstance(lm, dict) and all(m in lm for m in evalm)
+                  if ok_lists:
+                      for m in evalm:
+                          want = [SCORES[i] if (m is dm or (dm is None and m is evalm[0])) else Sym(f"{m.attrs['_name_']}[L{i}]") for i in passing]
+                          if lm[m] != want:
+                              ok_lists = False
+                              wit = dict(wit, metric=m.attrs["_name_"], got=repr(lm[m]), want=repr(want))
+                              break
+                  ctx.decide("R02.1", f, out.node, construct + ":lists", "every per-instance list holds exactly the values of the passing instances (tp entries)", ok_lists, wit)
+                  ctx.decide("R02.1", f, out.node, construct + ":counts", "instance counts and arrays are passed on uncrossed", res.attrs.get("num_pred_instances") == Sym("N_PRED") and res.attrs.get("num_ref_instances") == Sym("N_REF") and res.attrs.get("reference_arr") == Sym("REF_ARR") and res.attrs.get("prediction_arr") == Sym("PRED_ARR"), {k: repr(res.attrs.get(k)) for k in ("num_pred_instances", "num_ref_instances", "reference_arr", "prediction_arr")}, nontrivial=False)
     if n_cfg < 9:
         ctx.undecided("R02.1.floor", f, f.node, "floor:R02.1", f"{n_cfg} configurations evaluated")
     # decision metric without threshold must be rejected
